@@ -265,7 +265,14 @@ func runC16(s *core.Sim, tier string) RunInfo {
 		})
 		s.Settle(31*time.Minute, tk)
 		s.Quiesce(time.Second)
+		w.OracleAttrs = nil
+		if p.fromHeight == 0 && p.fromHash == "" && p.window < 2*space {
+			// a window shorter than two blocks puts the tail at the head itself: every prune then
+			// reaches into heights the sync loop is appending at that moment (K03)
+			w.OracleAttrs = map[string]string{"window": "below-two-blocks"}
+		}
 		w.checkStoreIsHonestChain(fmt.Sprintf("cycle %d [%s]", c, p.desc), true)
+		w.OracleAttrs = nil
 		if s.Failed() {
 			break
 		}
